@@ -391,6 +391,9 @@ def run_one(cfg, decisions=None, keep_events=False):
                 want_iq = np.array(scale_ * f2 / sw + bkg, "d")
             else:
                 want_iq = np.array(scale_ * f2 / svs + bkg, "d")
+            # the kernel object has been used before (as a caller's would have been):
+            # prime it with a different, non-empty request first
+            direct_model.call_kernel(kernel, {"scale": 3.0, "background": 7.0}, cutoff=0.0)
             got_iq = direct_model.call_kernel(kernel, dict(pars), cutoff=cutoff)
             denom = np.abs(want_iq) + abs(bkg) + 1e-300
             if not np.all(agree(got_iq, want_iq, 1e-9 * denom)):
